@@ -130,10 +130,18 @@ def run_one(obl: Obl) -> Result:
     if m:
         res.paths, res.solver_queries, res.solver_s = int(m.group(1)), int(m.group(2)), float(m.group(3))
     verdicts = []
-    for ln in out.splitlines():
+    lines = out.splitlines()
+    for li, ln in enumerate(lines):
         mm = _LINE_RE.match(ln.strip())
         if mm and os.path.basename(mm.group("file")) == os.path.basename(path):
-            verdicts.append((mm.group("kind"), mm.group("msg")))
+            msg = mm.group("msg")
+            if mm.group("kind") == "error" and "when calling" not in msg:
+                # an exception text of several lines: the call is on a later line
+                for more in lines[li + 1: li + 80]:
+                    msg += " | " + more.strip()
+                    if "when calling" in more:
+                        break
+            verdicts.append((mm.group("kind"), msg))
     if not verdicts:
         res.reason = "no verdict line (crash or import error)"
         return res
